@@ -75,6 +75,11 @@ func (t *UTransport) dial(ctx context.Context, addr net.Addr, host string, tlsCo
 	// InitPacketNumberLengths). Chrome's first Initial is PN=1.
 	var initialPN protocol.PacketNumber
 	if t.QUICSpec != nil {
+		// [UQUIC] Refuse a spec that cannot be sent as described (or that a server would
+		// drop unseen) with an error, instead of a dial that times out.
+		if err := t.QUICSpec.InitialPacketSpec.validate(t.QUICSpec.UDPDatagramMinSize, int(conf.InitialPacketSize)); err != nil {
+			return nil, err
+		}
 		t.QUICSpec.UpdateConfig(conf)
 		initialPN = t.QUICSpec.InitialPacketSpec.initialPN()
 	}
